@@ -91,7 +91,7 @@ impl<T: Payload> Scn<T> {
         let (s, r) = new_chan::<T>(cap, async_ctor);
         let span = ((l.n as u64 - payload::FIRST_UNIQUE) / 16).min(4096);
         let mut main = ThreadCtx::<T>::new(0, payload::FIRST_UNIQUE, payload::FIRST_UNIQUE + span);
-        main.pat = seed;
+        main.set_pat(seed);
         main.senders.push(s);
         main.receivers.push(r);
         let slot = stuck::slot(MAIN_SLOT);
@@ -140,7 +140,7 @@ impl<T: Payload> Scn<T> {
         let span = ((l.n as u64 - payload::FIRST_UNIQUE) / 16).min(4096);
         let lo = payload::FIRST_UNIQUE + (w as u64 + 1) * span;
         let mut ctx = ThreadCtx::<T>::new(w as u16 + 1, lo, lo + span);
-        ctx.pat = self.main.pat ^ (w as u64 + 1) << 12;
+        ctx.set_pat(self.main.pat ^ (w as u64 + 1) << 12);
         if side != Side::R {
             self.main.exec(Op::CloneS(asyncf)).expect("main has a sender to clone");
             ctx.senders.push(self.main.senders.pop().unwrap());
